@@ -98,6 +98,11 @@ pub fn delta() -> Q {
 /// a disagreement counts only if the closed region through which `before` routes the
 /// witness is fat.  Returns the judged mismatches.
 pub fn compare_pruned(before: &Snap, after: &Snap, out: &mut CaseOut, leaf: &mut dyn FnMut(&Face)) -> Vec<Mismatch> {
+    compare_pruned_all(before, after, out, leaf).0
+}
+
+/// (mismatches on fat regions, mismatches on regions thinner than the LP tolerance)
+pub fn compare_pruned_all(before: &Snap, after: &Snap, out: &mut CaseOut, leaf: &mut dyn FnMut(&Face)) -> (Vec<Mismatch>, Vec<Mismatch>) {
     let n = before.in_dim;
     let imp = TreeSide(after);
     let rf = TreeSide(before);
@@ -105,6 +110,7 @@ pub fn compare_pruned(before: &Snap, after: &Snap, out: &mut CaseOut, leaf: &mut
     cfg.max_mismatches = 64;
     let o = refine(n, &imp, &rf, &cfg, out, &mut |f, _, _| leaf(f));
     let mut judged = vec![];
+    let mut thin = vec![];
     for m in o.mismatches {
         let rows = match before.route_rows(&m.point) {
             Ok(r) => r,
@@ -115,10 +121,13 @@ pub fn compare_pruned(before: &Snap, after: &Snap, out: &mut CaseOut, leaf: &mut
         };
         match thickness(n, &rows, &delta()) {
             Thickness::Fat => judged.push(m),
-            _ => out.add("tolerated_thin_faces", 1),
+            _ => {
+                out.add("tolerated_thin_faces", 1);
+                thin.push(m);
+            }
         }
     }
-    judged
+    (judged, thin)
 }
 
 /// Structural clause of C03 for operations with stable indices (infeasible_elimination):
